@@ -55,31 +55,53 @@ class C15(Prop):
     props_file = "props/C15.v"
     design_ref = "DESIGN.md §4 C15, §5 rows 20-21"
     level_text = ("Coq theorems over every row table, every paragraph tree and every external-crate parser: for each getter/setter pair "
-                  "satisfying the decidable ok_pair (same literal = documented name of spec/field_names.tsv, set/remove not insert, codec pair "
+                  "satisfying the decidable ok_pair (same literal = the name in spec/field_names.tsv, set/remove not insert, codec pair "
                   "in the round-trip catalogue) and every valid value, the getter returns the value after the setter, exactly one field of "
                   "that name holds it, every other field keeps name, value and position, every other child of the paragraph node (comments) is "
                   "untouched; clearing setters remove the field; sequences of setters (induction); getter readings of rendered comma-, "
-                  "whitespace-, line-separated lists, flags, checksum triples, first description line for every layout; Control::source/"
-                  "binaries select by Source/Package; hand models for DEP-3 description/author/bugs, copyright Header::fix, Source::vcs. "
-                  "The instance ok_accessors Accessors_gen.spec Accessors_gen.table = true is closed by vm_compute over the table the "
-                  "translator regenerates from /repo on every run.")
+                  "whitespace-, line-separated lists, flags (Rules-Requires-Root: no / binary-targets / keyword list, no panic), checksum "
+                  "triples, first description line, relationship fields (total, substitution variables included) for every layout; "
+                  "Control::source/binaries select by Source/Package; hand models for DEP-3 description/author/bugs, copyright Header::fix, "
+                  "Source::vcs. The instance ok_accessors Accessors_gen.spec Accessors_gen.table = true is closed by vm_compute over the "
+                  "table the translator regenerates from /repo on every run. "
+                  "WHAT 'RETURNS THAT VALUE' MEANS HERE: a value of a typed argument (Relations, debversion::Version, url::Url, chrono "
+                  "DateTime/NaiveDate, the keyword enums) is REPRESENTED BY ITS Display TEXT, in the model and in both sides of the stream. "
+                  "So the theorems and the stream say 'the getter returns a value with the same Display text as the one set'; information "
+                  "Display drops (sub-second part of a DateTime in set_date/set_valid_until — to_rfc2822 prints whole seconds; anything two "
+                  "different values of an external type print alike) is outside the claim, and 'parse . Display = identity on Display texts' "
+                  "is assumed of url/debversion/chrono. "
+                  "WHERE THE FIELD NAMES COME FROM: spec/field_names.tsv was written without access to the documents; for the rows without "
+                  "exception flag the name IS title_hyphen(method name), i.e. derived from the code, only the flagged rows are independent "
+                  "of it; an audit found and corrected two names that had been copied from the code (No-Support-for-Architecture-all, "
+                  "Reviewed-by); the names were then compared with the ones /repo's lossy structs declare. "
+                  "EXCLUDED FROM THE QUANTIFIER (all named in `assumptions`): DEP-3 set_long_description on a header without description "
+                  "is a recorded finding (theorem outside the class + witness).")
     level_note = ("Model: coq/model/Accessors.v gives every generated row a meaning over the paragraph model of C04 (Deb822Edit.para_set/"
                   "para_insert/para_remove, list laws proved for every tree). External crates url, debversion, chrono are parameters of "
                   "the theorems (any parser), validated on canonical texts by the stream.")
     rule = ("accessor: every (getter, setter) pair of the regenerated table x prior paragraph state (absent, only, between other fields, "
             "comments around, first/last, unterminated last line, second paragraph of the document, duplicate) x generated valid values "
-            "(incl. clearing) as G,S,G,re-read,G; getters without setter on generated raw text; rendered list/flag/triple layouts with "
-            "the expected reading; random setter sequences on one paragraph; a malformed stream (ill-typed raw text, broken documents, "
-            "unknown methods, wrong paragraph index). control-select: every arrangement of <= 3 (4) paragraphs over 4 kinds + random "
-            "documents. accessor-table: the generated Rust dispatch and the Coq table list the same functions. non-trivial = a setter ran "
-            "or a field was read")
+            "(incl. clearing, relationship fields with ${substitution:variables}, License::Text) as G,S,G,re-read,G; getters without "
+            "setter on generated raw text; rendered list/flag/triple/relations layouts with the expected reading (Rules-Requires-Root: "
+            "no, binary-targets, keyword lists); random setter sequences on one paragraph; a malformed stream (ill-typed raw text, broken "
+            "documents, unknown methods, wrong paragraph index). control-select: every arrangement of <= 3 (4) paragraphs over 4 kinds + "
+            "random documents. accessor-table: the Rust dispatch and the Coq table list the same functions (both written by the same "
+            "translator run) AND an independent regular-expression count of `pub fn` per source file agrees with the table. "
+            "non-trivial = a setter ran or a field was read")
     trusted = ["Coq 8.16.1 kernel",
-               "translate/accessors.py (closed template catalogue; its output is re-validated against the real functions by the accessor stream on every run) and spec/field_names.tsv (the documented field names: specification)",
+               "translate/accessors.py (closed template catalogue, pinned by translate/fixtures; its output is re-validated against the real functions by the accessor stream on every run). It writes BOTH the Coq table and the Rust dispatch harness/src/s_accessor_gen.rs, so agreement of those two lists is not evidence of completeness; completeness is checked by an independent scan in vlib/props/c15.py (oracle_table)",
+               "spec/field_names.tsv: the field names and readings are specification, written from memory of Policy/DEP-3/DEP-5/repository format; for rows without exception flag they coincide with title_hyphen(method) and are therefore not independent of the code",
                "hand transcription of Paragraph::{get,set,insert,remove,rename} (C04's model), of the codecs in coq/model/Accessors.v and of the hand-modelled functions",
-               "external crates url / debversion / chrono: parse . Display = identity on Display texts (assumed; the theorems quantify over every parser, validity of a value = its text reads back)",
+               "external crates url / debversion / chrono: parse . Display = identity on Display texts (assumed; the theorems quantify over every parser, validity of a value = its text reads back); typed values are represented by their Display text",
                "extraction (ExtrOcamlBasic only), OCaml runner, Rust harness (dispatch generated by the translator), Python driver"]
-    assumptions = ["values are valid for their codec (Accessors.valid_value): list items free of their separator and trimmed, representable enum payloads, sizes below 2^64, texts of typed values that read back",
-                   "the field occurs at most once before the setter runs (with duplicates set() replaces the first occurrence only)"]
+    assumptions = ["values are valid for their codec (Accessors.valid_value / valid_plain): comma lists non-empty with items free of ',' and of leading/trailing blanks; whitespace lists of non-empty blank-free words; line lists non-empty with items free of LF; checksum records of blank-free non-empty words and sizes below 2^64; Forwarded::Yes(s) with s not 'no'/'not-needed'; AppliedUpstream::Other(s) / Origin::Other(s) with s not starting 'commit:'; an Origin without category whose text does not start with '<category>, ' and is not a category word; License::Name(n) with n free of LF, License::Named(n, t) with n non-empty and free of LF (every License::Text is valid); Environment keys free of '=' and LF, values free of LF, neither ending in CR; usize below 2^64; keyword enums: one of the Display texts; url/debversion/chrono values: texts that read back to themselves",
+                   "typed values are compared by Display text (what Display drops, e.g. sub-seconds of set_date, is not observed)",
+                   "count: 'exactly one field' is claimed when the field occurs at most once before the setter runs (with duplicates set() replaces the first occurrence only; stated as count = max 1 (count before))",
+                   "re-read clause (C15_reread, and the oracle's G after R): the written text is in C04's domain canon_kv (non-empty lines without LF/CR that do not begin with a blank, continuation lines not beginning with '#', non-empty first line). Outside it the live object still obeys the theorems but the printed text re-reads differently: License::Text (empty first line), set_environment (trailing newline), values with empty or blank-edged lines",
+                   "DEP-3 description/long_description/author: not both alternative fields present (Description+Subject, Author+From): setters look for Subject/From first, getters for Description/Author first (C15_dep3_description_both_needed shows the hypothesis is necessary; such headers are not generated in the judged stream)",
+                   "DEP-3 set_long_description: a description field exists (otherwise recorded finding c15-dep3-long-description-without-description; generated and reported as KNOWN-FINDING)",
+                   "getters that unwrap() a parse (usize, MultiArch, Urgency, Version, checksum records, Environment lines, FilesParagraph::files on a paragraph without Files, Changes::get_pool_path) panic on ill-typed raw text: the judged stream feeds them well-typed text only; the panics are modelled (Panic n) and compared in accessor-any. Relationship fields and Rules-Requires-Root no longer belong to this list (fixed)",
+                   "dep3 Forwarded/AppliedUpstream/Origin and copyright License are compared structurally (tag + payload), everything else typed by Display text"]
     case_ms = 8000
 
     def __init__(self):
@@ -136,7 +158,7 @@ class C15(Prop):
         if impl in ("HANG", "ABORT", "MISSING"):
             return "implementation " + impl
         if stream == "accessor-table":
-            return None
+            return self.oracle_table(impl)
         if stream == "control-select":
             return self.oracle_control(fields, impl)
         cid_ops = fields[3:]
@@ -164,6 +186,7 @@ class C15(Prop):
         last_set = {}      # getter method -> (field or None, setter method, value text)
         touched = set()
         reread_seen = False
+        self._no_reread = False
         names0 = [k for k, _ in items]
         for idx_op, (op, out) in enumerate(zip(cid_ops, outs)):
             p = op.split("~")
@@ -180,9 +203,11 @@ class C15(Prop):
                 for m, (fld, _, _) in list(last_set.items()):
                     if fld is None or fld in flds or not flds: del last_set[m]
                 if gm is not None and (ty, gm) in self._by:
-                    if p[1] == "set_long_description" and not ({"Description", "Subject"} & set(names0)): continue
                     if p[1] in ("set_description", "set_long_description", "set_author") and self.both_alternatives(p[1], names0): continue
                     last_set[gm] = (flds[0] if flds else None, p[1], p[3])
+                    # a License::Text is written with an empty first line, which a deb822 file cannot carry: the live
+                    # object reads it back, the re-read text does not (named assumption "re-read: C04's domain")
+                    if p[1] == "set_license" and p[3].startswith("L." + hexs("Text")): self._no_reread = True
             elif p[0] == "G":
                 if p[1] in last_set:
                     fld, sm, v = last_set[p[1]]
@@ -199,6 +224,7 @@ class C15(Prop):
                     if out == "NOOBJ" and r.get("rr") in ("OK:", "-"): break
                     return "the printed text does not re-read: " + out
                 reread_seen = True
+                if self._no_reread: last_set.clear()
         # frame: fields not named by any setter keep name, value and order; comments stay
         if r.get("live", "-") != "-" and "*" not in touched:
             live = parse_items(r["live"])
@@ -232,6 +258,32 @@ class C15(Prop):
         if out == v or out == "O" + v: return True
         if v == "N" and out in ("N", "R", "L", "B0"): return True
         return False
+
+    SOURCE_OF = {"control": "debian-control/src/lossless/control.rs", "apt": "debian-control/src/lossless/apt.rs",
+                 "changes": "debian-control/src/lossless/changes.rs", "buildinfo": "debian-control/src/lossless/buildinfo.rs",
+                 "copyright": "debian-copyright/src/lossless.rs", "dep3": "dep3/src/lossless.rs"}
+    def oracle_table(self, impl):
+        """the dispatch and the Coq table are written by the same translator run, so their agreement says little;
+        this is an INDEPENDENT count: `pub fn <name>` lines of each source file (plain regular expression on the text
+        outside `mod tests` and comments) against the rows of that file's types"""
+        import collections, os
+        rows = collections.Counter()
+        for item in impl.split(","):
+            ty, m, role = item.rsplit(".", 2)
+            rows[(ty.split("::")[0], m)] += 1
+        for mod, path in self.SOURCE_OF.items():
+            try:
+                txt = open(os.path.join(core.REPO, path)).read()
+            except OSError:
+                return f"cannot read {path}"
+            txt = txt.split("#[cfg(test)]\nmod test")[0]
+            lines = [l for l in txt.split("\n") if not l.lstrip().startswith("//")]
+            found = collections.Counter(re.findall(r"^\s*pub(?:\([a-z]+\))? (?:const |async |unsafe )*fn (\w+)", "\n".join(lines), re.M))
+            mine = collections.Counter({m: c for (md, m), c in rows.items() if md == mod})
+            if found != mine:
+                diff = sorted((found - mine).items()) + sorted((mine - found).items())
+                return f"{path}: the table and an independent scan for `pub fn` disagree on {diff[:6]}"
+        return None
 
     def hand_touched(self, ty, ops, k):
         """fields a hand-modelled setter may touch"""
@@ -270,6 +322,11 @@ class C15(Prop):
         return None
 
     def known_class(self, stream, fields, impl, model, why):
+        if stream == "accessor" and fields[0] == "dep3::PatchHeader" and why and "after set_long_description" in why and "re-reading" not in why:
+            text = unhex(fields[1])
+            names = [k for p_ in read_paragraphs(text)[:1] for k, _ in p_[0]]
+            if "Description" not in names and "Subject" not in names:
+                return "c15-dep3-long-description-without-description"
         return None
 
     def neighbours(self, stream, fields):
